@@ -5,6 +5,7 @@ use vcheck::c16::{Case, C16};
 use vcheck::fuzzsupport::{eval, Bytes};
 
 fuzz_target!(|data: &[u8]| {
+    vcheck::fuzzsupport::guarded(|| {
     let mut b = Bytes::new(data);
     let kind = b.u8() % 4;
     let mode = b.u8() % 8;
@@ -24,4 +25,5 @@ fuzz_target!(|data: &[u8]| {
         _ => Case::Api { x: b.d(), y: b.d(), n: b.u8() % 19, mode },
     };
     eval(&C16, &case);
+    });
 });
